@@ -89,6 +89,9 @@ class Session:
         m[1, 1] = 3.0
         self.pool['M1'] = m
         self.pool['Mi'] = (m != 0).astype(int) * 2
+        # a cube of two BINARY segment masks that share a column of samples (already 0/1: nothing to binarise, something to de-duplicate)
+        cols_ = np.arange(s0[1])[None, :]
+        self.pool['M3'] = np.array([(m != 0) & (cols_ <= s0[1] // 2), (m != 0) & (cols_ >= s0[1] // 2)]).astype(int)
         self.pool['E1'] = np.round(nrng.uniform(-20, 400, size=s0))           # electrons, some negative / above saturation
         self.pool['E2'] = np.round(nrng.uniform(50, 5000, size=s0))
         self.pool['C1'] = nrng.uniform(0, 10, size=(3,) + s0)                 # photon cube
@@ -166,6 +169,8 @@ class Session:
             ('Pupil', lambda: l.Pupil(amplitude=p['A2'], opd=p['O1'].copy(), mask=p['Mi'], pixelscale=0.5, focal_length=4.0), ['A2', 'O1', 'Mi'], ()),
             ('Pupil_nomask', lambda: l.Pupil(amplitude=p['A2'], opd=p['O1'].copy(), pixelscale=0.5, focal_length=4.0), ['A2', 'O1'], (), 'P2'),
             ('Image', lambda: l.Image(amplitude=p['A1'], mask=p['M1']), ['A1', 'M1'], ()),
+            ('Plane_segments', lambda: l.Plane(amplitude=p['A1'], mask=p['M3']), ['A1', 'M3'], ()),
+            ('Pupil_segments', lambda: l.Wavefront(2.0 ** -7) * l.Pupil(amplitude=p['A1'], mask=p['M3'], pixelscale=0.5, focal_length=4.0), ['A1', 'M3'], ()),
             ('multiply', lambda: l.Wavefront(2.0 ** -7) * p['P1'], ['P1'], (), 'W1'),
             ('multiply_tilt', lambda: p['W1'] * l.Tilt(x=1e-4, y=-2e-4), ['W1'], ()),
             ('multiply_tilt', lambda: p['W2'] * l.Tilt(x=1e-4, y=-2e-4), ['W2'], ('w2',)),
@@ -338,7 +343,7 @@ def selftest(ctx, events):
     ok1 = any(b[3] == 'Frame' for b in v1['bad'])
     # 2. an event is dropped: the next event's pre-state no longer continues the previous post-state
     ev2 = copy.deepcopy(events[:60])
-    tgt = next((i for i, e in enumerate(ev2[:-1]) if e['pre'] != e['post'] and ev2[i + 1]['tid'] == e['tid']), None)
+    tgt = next((i for i, e in enumerate(ev2[:-1]) if e['seq'] > 1 and e['pre'] != e['post'] and ev2[i + 1]['tid'] == e['tid']), None)
     ok2 = True
     if tgt is not None:
         del ev2[tgt]
